@@ -17,7 +17,9 @@ type runner struct {
 
 func newCase(r *hk.Run, label string) *runner {
 	r.Case(label)
-	return &runner{r: r, b: NewB(func(line, out string) { r.Op(line, out) })}
+	b := NewB(func(line, out string) { r.Op(line, out) })
+	b.Hit = r.Hit
+	return &runner{r: r, b: b}
 }
 
 func hash(s string) string {
@@ -249,6 +251,62 @@ func lateContent(r *hk.Run) {
 	}
 }
 
+// typeChurn: a fixed world (independent of the seed) in which the order of arrival of the claims on
+// camliNodeType is not their date order, asked for the type under every sort – every candidate
+// source the planner can pick for such a query must lead to the same matches.
+func typeChurn(r *hk.Run) {
+	c := newCase(r, "fixed node-type churn, arrival order differs from date order")
+	b := c.b
+	p, q, u, v, x := b.PN("churn1"), b.PN("churn2"), b.PN("churn3"), b.PN("churn4"), b.PN("churn5")
+	y, z := b.PN("churn6"), b.PN("churn7")
+	b.Claim(p, "set", "camliNodeType", "ta", 1400000020)
+	b.Claim(q, "set", "camliNodeType", "ta", 1400000030)
+	b.Claim(q, "del", "camliNodeType", "ta", 1400000040)
+	b.Claim(u, "set", "camliNodeType", "ta", 1400000050)
+	b.Claim(v, "set", "camliNodeType", "tb", 1400000060)
+	b.Claim(x, "add", "tag", "x", 1400000070)
+	b.Claim(y, "set", "camliNodeType", "ta", 1400000080)
+	b.ClaimBy(true, y, "del", "camliNodeType", "ta", 1400000090) // somebody else's del: the owner's y still has ta
+	b.ClaimBy(true, z, "set", "camliNodeType", "ta", 1400000100) // somebody else's set: the owner's z has no type
+	b.SyncCTimes()
+	ntype := func(v string) *Cons { return &Cons{Pn: &PermC{Attr: "camliNodeType", Value: v}} }
+	cs := []*Cons{ntype("ta"), ntype("tb"), {Camli: "permanode", Pn: &PermC{Attr: "camliNodeType", Value: "ta"}},
+		{Op: "and", A: &Cons{Camli: "permanode"}, B: &Cons{Op: "or", A: ntype("ta"), B: ntype("tb")}},
+		{Pn: &PermC{Attr: "camliNodeType", ValueMatches: &StrC{Equals: "ta"}}},
+		{Pn: &PermC{Attr: "camliNodeType", NumValue: &IntC{Min: 1}}},
+		// the type as it was at a time before / between / after the claims (q had ta from :30 to :40)
+		{Pn: &PermC{Attr: "camliNodeType", Value: "ta", At: 1400000032}},
+		{Pn: &PermC{Attr: "camliNodeType", Value: "ta", At: 1400000037}},
+		{Pn: &PermC{Attr: "camliNodeType", Value: "ta", At: 1400000015}},
+		{Pn: &PermC{Attr: "camliNodeType", Value: "ta", At: 1400000095}},
+		{Op: "and", A: &Cons{Camli: "permanode"}, B: &Cons{Op: "or", A: &Cons{Pn: &PermC{Attr: "camliNodeType", Value: "ta", At: 1400000032}}, B: ntype("tb")}}}
+	ask := func(phase string) {
+		for _, cons := range cs {
+			for _, s := range allSorts {
+				for _, l := range []int{1, -1} {
+					r.Hit("fixed-type-churn:" + phase)
+					c.query(s, l, cons, "nonconstant")
+				}
+			}
+		}
+	}
+	ask("claims-in-date-order")
+	// now the older-dated claims arrive
+	b.Claim(p, "del", "camliNodeType", "", 1400000010)   // before the set that is in effect: p still has ta
+	b.Claim(q, "set", "camliNodeType", "ta", 1400000035) // before the del: q still has no type
+	b.Claim(u, "del", "camliNodeType", "tb", 1400000045) // removes a value u does not have
+	b.Claim(v, "set", "camliNodeType", "ta", 1400000055) // before the set of tb: v has tb (and once had ta)
+	b.Claim(x, "del", "tag", "x", 1400000065)            // before the add: x still has the tag
+	b.SyncCTimes()
+	b.Raw("pv " + p + " " + hx("camliNodeType"))
+	b.Raw("pv " + q + " " + hx("camliNodeType"))
+	b.Raw("pv " + v + " " + hx("camliNodeType"))
+	ask("after-older-dated-claims")
+	if len(b.Bad) > 0 {
+		r.Fail("world-build", strings.Join(b.Bad, "; "), "ok", "", r.CaseOps())
+	}
+}
+
 func malformed(r *hk.Run) {
 	c := newCase(r, "malformed ops")
 	b := c.b
@@ -261,7 +319,8 @@ func malformed(r *hk.Run) {
 		"q unsorted 01 c - 1 - 0 - - - - -", "q unsorted -1 c - 2 - 0 - - - - -", "q unsorted -1 c - 1 zz 0 - - - - -",
 		"q unsorted -1 c - 1 - 0 - i 1 2 0 0 - - - -", "q unsorted -1 c - 0 - 0 - i 1 2 0 0 - - - -", "q unsorted 99999999999 c - 1 - 0 - - - - -",
 		"pn " + p + " 10 m1", "pn sha224-00 10 zz", "pn", "cl", "cl " + fake0 + " 5 " + p + " add 746167 78 0",
-		"cl " + fake0 + " 5 " + p + " add 746167 78 1400000000", "cl " + fake0 + " 5 " + p + " mul 746167 78 1400000002",
+		"cl " + fake0 + " 5 " + p + " add 746167 78 1400000001",
+		"cl " + fake0 + " 5 " + p + " add 63616d6c694d656d626572 " + hx(p) + " 1400000000", "cl " + fake0 + " 5 " + p + " mul 746167 78 1400000002",
 		"cl " + fake0 + " 5 " + fake0 + " add 746167 78 1400000002", "del " + fake0 + " 5 " + fake0 + " 1400000002",
 		"bytes " + fake0 + " 3 6162", "bytes " + fake0 + " 2 616", "file " + fake0 + " 5 61 " + fake0 + " 0 -", "dir " + fake0 + " 5 61 " + fake0 + " 5 -",
 		"dir " + fake0 + " 5 61 " + strings.Replace(fake0, "00", "11", 1) + " 5 x,y", "ctime " + fake0 + " 5", "ctime " + p + " 0", "pv " + p, "pv " + p + " -",
@@ -281,6 +340,7 @@ func Run(r *hk.Run) {
 		"distinct by (constraint, sort, limit, world size)"
 	probes(r)
 	lateContent(r)
+	typeChurn(r)
 	malformed(r)
 	worlds, consPer, maxDepth := 500, 6, 3
 	if r.Thorough() {
